@@ -79,6 +79,17 @@ def _second_life(case, b, out, res):
         else:
             case2 = dict(case, history=[run], control=None, stop=None, load2=None, deepcopy=False, reexpress=None)
             reuse = {k: b.elements[k] for k in range(1, len(chain) + 1)}
+        # the step of the first life may be too coarse for the new chain (explicit integration diverges beyond k dt = 2):
+        # keep the number of steps, shorten the step to k dt <= 0.5
+        from vp.oracle import units_si as U
+        k2 = M.Model(case2).k
+        dt_si = U.si('TimeInterval', *run['dt'])
+        steps = max(2, round(U.si('TimeInterval', *run['T']) / dt_si))
+        if k2 * dt_si > 0.5:
+            f = 0.5 / (k2 * dt_si)
+            run = dict(run, dt=[run['dt'][0] * f, run['dt'][1]])
+        run = dict(run, T=[run['dt'][0] * steps, run['dt'][1]])
+        case2['history'] = [run]
         b2 = S.build(case2, reuse=reuse)
         S.run_op(b2, run)
         tr2 = S.Trace(b2)
@@ -100,7 +111,9 @@ def _second_life(case, b, out, res):
     except Exception as e:  # noqa
         from vp.simprops import by_design
         res.classes += (f'second-life-raised:{type(e).__name__}',)
-        if not by_design(e):
+        diverged = isinstance(e, OverflowError) or 'math domain error' in str(e)     # the harness's own load function met
+        #                                                     an infinite position: the integration diverged, nothing to judge
+        if not by_design(e) and not diverged:
             out.append((f'C01/second-life/raises/{type(e).__name__}', f'{sl}: {type(e).__name__}: {e}'))
     return n
 
